@@ -171,6 +171,11 @@ example : WFSkip wI wMs (rankOf wCert) ∧ skipFamily wSkip wI wMs [] = .ok wMsS
     (C13_vf_render wSkip wI wMs wMsS (rankOf wCert) [] w_wf (fun o ho => by cases ho) w_skip "A" (by decide +kernel) (1/2)
       (inHull_sound wI (1/2) (by decide +kernel))).2.1⟩
 
+/-- `C13_vf_render_default` instantiated at the location of the sparse source -/
+example : (renderAt wI wMsS 1 "A").Perm (renderAt wI wMs 1 "A") :=
+  C13_vf_render_default wSkip wI wMs wMsS (rankOf wCert) [] w_wf (fun o ho => by cases ho) w_skip "A" (by decide +kernel) 1
+    (inHull_sound wI 1 (by decide +kernel))
+
 /-- … and the instance of `C13_vf_render` agrees with the direct computation -/
 example : renderAtF 5 wI wMsS (1/2) "A" = renderAt wI wMs (1/2) "A" := by
   rw [w_render_skip (1/2) 15 265 (by simp), w_render_src (1/2) 15 265 (by simp)]
